@@ -162,6 +162,22 @@ def gen_workflow(rng: random.Random, feat: Features) -> dict:
             pass
         sections.append(sec)
 
+    if feat['mixed_parent_sections'] and not any(
+            s['rec'] == 'R1' for s in sections):
+        # a task that is parentless on its own recurrence but has a future
+        # trigger at the initial point only (R1 = "x[+P1] => y", P1 = y)
+        p1 = [s for s in sections if s['rec'] == 'P1' and len(
+            section_tasks(s)) >= 2]
+        if p1 and final - initial >= 1:
+            mem = sorted(section_tasks(p1[0]), key=names.index)
+            y = rng.choice(mem)
+            x = rng.choice([m for m in mem if m != y])
+            if tasks[x]['mode'] != 'fail_required':
+                sections.append({
+                    'rec': 'R1', 'points': rec_points('R1', initial, final),
+                    'arrows': [{'lhs': ('atom', x, 1, 'succeeded'),
+                                'rhs': [y]}], 'lone': []})
+
     # every task must appear in some section
     on_some = set()
     for sec in sections:
